@@ -20,3 +20,15 @@ TWINS = [
     T("html-skip-test-reordered", H, "        if self.skip_depth > 0:\n            if tag == self._skip_tag:\n                self.skip_depth += 1\n            return\n\n        if tag in REMOVE_TAGS:", "        if self.skip_depth > 0:\n            if self._skip_tag == tag:\n                self.skip_depth = self.skip_depth + 1\n            return\n\n        if tag in REMOVE_TAGS:"),
     T("html-comment-handler-documented", H, "    def handle_comment(self, data: str):\n        # Ignore comments\n        pass", "    def handle_comment(self, data: str):\n        \"\"\"Comments never reach the tree.\"\"\"\n        return None"),
 ]
+
+# --- seeded changes kept under /verif/seeded (sub-agents saw only the property text); each must be reported by the named rule
+import os as _os
+from sa.selftest.harness import P as _P
+_SEEDS = _os.path.join(_os.path.dirname(_os.path.dirname(_os.path.dirname(_os.path.abspath(__file__)))), "seeded")
+SEEDED = [
+    ("C17-1", "C17-N4"),
+    ("C17-3", "C17-N5"),
+    ("C17-4", "C17-SKIP"),
+    ("C17-5", "C17-SKIP"),
+]
+MUTANTS = list(MUTANTS) + [_P("seed-" + sid, _os.path.join(_SEEDS, sid, "patch.diff"), rule) for sid, rule in SEEDED if _os.path.exists(_os.path.join(_SEEDS, sid, "patch.diff"))]
